@@ -108,3 +108,13 @@ Proof.
     pose proof (Hw w) as Hn. rewrite Hnew in Hn. cbn in Hn.
     split; lock_side Hw Hc Hcr1.
 Qed.
+
+Lemma P_wf s t f s' : I_created s -> I_wf s -> step s t f = Some s' -> I_wf s'.
+Proof.
+  intros [Hcr1 Hcr2] Hwf H. open_step2 H; use_lockop.
+  all: intros w'; pose proof (Hwf w') as Hx; simp;
+       try match goal with Ew : ws ?s1 ?w = _ |- _ => let Hm := fresh "Hm" in pose proof (Hwf w) as Hm; rewrite Ew in Hm end;
+       split_upd; rew_recs; simp; unfold wf_w, held_task, held_sent in *; simp;
+       try assumption; try reflexivity;
+       try (destruct clean; cbn in *; try discriminate; try assumption; try reflexivity).
+Qed.
